@@ -69,7 +69,7 @@ def main():
     for prop in props:
         for tier in ("quick", "thorough"):
             env = goenv()
-            env.update(VERIF_REPO=wt, VERIF_REPLAY_OUT=os.path.join(scratch, "replay"), VERIF_EVIDENCE_OUT=os.path.join(scratch, "evidence"))
+            env.update(VERIF_REPO=wt, VERIF_REPLAY_OUT=os.path.join(scratch, "replay"), VERIF_EVIDENCE_OUT=os.path.join(scratch, "evidence"), VERIF_WORK=os.path.join(scratch, "work"))
             t0 = time.time()
             p = subprocess.run([os.path.join(ROOT, "check"), prop, "--tier", tier], env=env, stdout=subprocess.PIPE, stderr=subprocess.STDOUT, text=True)
             verdict = {0: "missed", 1: "DETECTED", 2: "inconclusive"}.get(p.returncode, "rc=%d" % p.returncode)
